@@ -16,6 +16,7 @@
 From Coq Require Import String Ascii List Bool Arith ZArith.
 Import ListNotations.
 Require Import V.Lib.PyStr V.Lib.JTree.
+Require V.Lib.Harness.   (* used by the generated case files of the correspondence run *)
 Open Scope string_scope.
 
 (* ---------------------------------------------------------------- sorting (Python sorted() on str) *)
